@@ -80,8 +80,19 @@ def run_case(case) -> list:
                 with getattr(R, KINDS[kind])(*conds_of(sub)):
                     body(sub)
 
-        with q:
-            body(case["prog"])
+        st = case.get("stages")
+        if not st:
+            with q:
+                body(case["prog"])
+        else:
+            # the same program written in two `with q:` blocks: [split index of the top-level body, block that holds the Add]
+            k, add_stage = st
+            prog = case["prog"]
+            for stage, part in ((0, prog["body"][:k]), (1, prog["body"][k:])):
+                with q:
+                    body({"conds": prog["conds"], "tag": prog["tag"] if stage == add_stage else None, "body": part})
+        for _ in range(case.get("evals", 1) - 1):      # experiments only: evaluate the same query object several times
+            keep.extend(q.evaluate())
         out, again, seen = [], [], set()
         for v in q.evaluate():
             row = [TAG_OF.get(type(v), -1), index.get(id(v.p), -1)]
@@ -127,8 +138,6 @@ def snippet(case) -> str:
         return ", ".join(f"x.{ATTRS[a]} {OPNAMES[o]} " + (str(rv) if rk == 0 else f"x.{ATTRS[rv]}") for a, o, rk, rv in r["conds"])
 
     lines.append(f"q = an(entity(views, {conds(case['prog'])}))")
-    lines.append("with q:")
-
     def body(r, ind):
         pad = "    " * ind
         wrote = False
@@ -142,7 +151,16 @@ def snippet(case) -> str:
         if not wrote:
             lines.append(f"{pad}pass")
 
-    body(case["prog"], 1)
+    st = case.get("stages")
+    if not st:
+        lines.append("with q:")
+        body(case["prog"], 1)
+    else:
+        k, add_stage = st
+        prog = case["prog"]
+        for stage, part in ((0, prog["body"][:k]), (1, prog["body"][k:])):
+            lines.append("with q:")
+            body({"conds": prog["conds"], "tag": prog["tag"] if stage == add_stage else None, "body": part}, 1)
     lines.append("print(sorted((type(v).__name__, xs.index(v.p)) for v in q.evaluate()))")
     return "\n".join(lines)
 
@@ -243,6 +261,8 @@ def run_case2(case) -> list:
 
         with q:
             body(case["prog"])
+        for _ in range(case.get("evals", 1) - 1):
+            keep.extend(q.evaluate())
         out, again, seen = [], [], set()
         for v in q.evaluate():
             row = [TAG2_OF.get(type(v), -1), ci.get(id(v.p), -1), bi.get(id(v.q), -1)]
@@ -476,7 +496,11 @@ def gen_case(rng, good, max_branches):
     prog = fill(rng, forest, [0], vals)
     nw = rng.choice([0, 1, 2, 3, 4, 4, 5, 6, 8])
     world = [[rng.choice(vals), rng.choice(vals)] for _ in range(nw)]
-    return {"world": world, "prog": prog}
+    case = {"world": world, "prog": prog}
+    if prog["body"] and rng.chance(0.25):
+        # written in two `with query:` blocks (the cached conditions root makes this the same program)
+        case["stages"] = [rng.randint(0, len(prog["body"])), rng.randint(0, 1)]
+    return case
 
 
 def all_forests(n):
@@ -639,6 +663,8 @@ def run(tier: str, seed: int, replay=None) -> int:
         "one variable over a domain of distinct objects with two int attributes; conditions are and_-chains of comparisons of an "
         "attribute with a constant or another attribute; every conclusion is Add(views, inference(V_tag)(p=x))",
         "an and_-chain of comparators is one leaf of the model: a comparator found bound re-yields the flag it computed for the same element",
+        "a program written in two `with query:` blocks (25% of the one-variable cases) is the same program for Spec and model: "
+        "`_conditions_root_` is cached, RuleBuild.enter returns the cached node on re-entry",
         "Spec reading: branches written at one level are tried in written order; a next_rule written earlier counts as an earlier branch for a later alternative; "
         "several refinements of one rule are tried in written order",
     ]
